@@ -24,6 +24,44 @@ TLA_CP = "/opt/veriftools/tla/tla2tools.jar:/opt/veriftools/tla/CommunityModules
 GUARD = "SPP_VERIF_TRACE"
 
 
+# ---------------------------------------------------------------------------------------------- warnings
+# The properties speak of "a length-mismatch warning" and of packets "dropped with a warning"; they do not fix the wording. Warnings
+# issued from the library's own files are classified by the phrases of the pinned tree; one whose wording is not recognised is
+# "other" and is matched against the expected counts by totals, so that a reworded message is not an alarm.
+WARNING_PHRASES = {"mismatch": "did not match the length of data available", "gap": "are not in sequence",
+                   "nostart": "without declaring the start", "selfref": "comparison against a current value"}
+
+
+def warning_kinds(ws):
+    k = {kind: 0 for kind in WARNING_PHRASES}
+    k["other"] = 0
+    lib = os.path.join(REPO, "space_packet_parser")
+    for w in ws:
+        if not str(getattr(w, "filename", "")).startswith(lib) or not issubclass(w.category, UserWarning):
+            continue
+        msg = str(w.message)
+        for kind, phrase in WARNING_PHRASES.items():
+            if phrase in msg:
+                k[kind] += 1
+                break
+        else:
+            k["other"] += 1
+    return k
+
+
+def flag_warnings(ws):
+    """Number of warnings that flag a packet in a context where only the length-mismatch warning (and the unrelated self-reference
+    note) can occur: the recognised mismatch warnings plus any of unrecognised wording."""
+    k = warning_kinds(ws)
+    return k["mismatch"] + k["other"]
+
+
+def warnings_agree(k, expected):
+    """expected: {kind: count}. Recognised warnings may not exceed their kind's count; together with those of unrecognised wording
+    they must add up to the expected total (equality per kind whenever every wording is recognised)."""
+    return all(k[kind] <= n for kind, n in expected.items()) and sum(k[kind] for kind in expected) + k["other"] == sum(expected.values())
+
+
 class MachineryError(Exception):
     """TLC / SANY / harness failure: exit 2, never a verdict on the property."""
 
